@@ -8,7 +8,7 @@ use serde_json::{json, Value};
 use crate::{exec_oracle::*, pipe, report::*, rustc_oracle::RCase, spec::*, synx, util};
 
 pub const EXEC_ADDRS: &[u64] = &[0x0001_0000, 0x1000_2340, 0x2000_0010, 0x3FFF_FFF0, 0x7000_1238];
-const TEXT_ONLY_ADDRS: &[u64] = &[0x123, 0, 0x7FFF_FFFF_FFFF_FFFF, 1];
+const TEXT_ONLY_ADDRS: &[u64] = &[0x123, 0, 0x7FFF_FFFF_FFFF_FFFF, 1, 0x7FFF_FFFF, 0x8000_0000, 0xFFFF_FFFF, 0x1_0000_0000];
 pub const RET_SENTINEL: u64 = 0x8877_6655_4433_2201;
 
 #[derive(Clone, Debug, PartialEq)]
